@@ -204,15 +204,23 @@ fn gen_node_aff(r: &mut Rng, rows: usize, n: usize) -> AffFunc {
 
 /// grow a binary tree, remove a subtree, add nodes again (fewer than were removed): the arena has holes
 fn tree_case(r: &mut Rng, id: usize, out: &mut String) {
+    // branching factors 3 and 4 as well: a node line then lists up to four children
+    match r.below(6) {
+        0 => tree_case_k::<3>(r, id, out),
+        1 => tree_case_k::<4>(r, id, out),
+        _ => tree_case_k::<2>(r, id, out),
+    }
+}
+fn tree_case_k<const K: usize>(r: &mut Rng, id: usize, out: &mut String) {
     let n = if r.chance(1, 10) { 21 + r.below(3) } else { r.below(7) };
     let m = 1 + r.below(7);
     let rows0 = 1 + r.below(2);
-    let mut t = AffTree::<2>::from_aff(gen_node_aff(r, rows0, n));
-    let grow = |t: &mut AffTree<2>, r: &mut Rng, steps: usize| {
+    let mut t = AffTree::<K>::from_aff(gen_node_aff(r, rows0, n));
+    let grow = |t: &mut AffTree<K>, r: &mut Rng, steps: usize| {
         for _ in 0..steps {
             let idxs: Vec<usize> = t.tree.node_indices().collect();
             let at = idxs[r.below(idxs.len())];
-            let label = r.below(2);
+            let label = r.below(K);
             if t.tree.tree_node(at).unwrap().children[label].is_some() {
                 continue;
             }
@@ -230,7 +238,7 @@ fn tree_case(r: &mut Rng, id: usize, out: &mut String) {
             break;
         }
         let at = decs[r.below(decs.len())];
-        let label = r.below(2);
+        let label = r.below(K);
         if t.tree.try_remove_child(at, label).is_ok() {
             removed = true;
         }
@@ -241,7 +249,11 @@ fn tree_case(r: &mut Rng, id: usize, out: &mut String) {
     }
     let p = PRECS[r.below(PRECS.len())];
     let disp = show(&t, p);
-    let dot = show(&Dot::from(&t), p);
+    // Dot exists for binary trees only
+    let dot = match (&t as &dyn std::any::Any).downcast_ref::<AffTree<2>>() {
+        Some(t2) => show(&Dot::from(t2), p),
+        None => "skip".to_string(),
+    };
     out.push_str(&format!("(case {} tree {} {} {} {})\n", id, sx_prec(p), sx_tree(&t), disp, dot));
 }
 
